@@ -181,7 +181,9 @@ def oracle(cases, order, impl, skeleton):
             nontrivial.add(vlib.case_hash("\t".join(c)))
         elif kind == "I":
             m = re.match(r"^trials=(\d+) later_writes_visible=(\d+)$", out)
-            if not m:
+            if re.match(r"^trials=\d+ later_writes_visible=\*$", out):
+                pass        # huge-directory demonstration: judged from known.out in evaluate()
+            elif not m:
                 fails.append(dict(name="interleave-" + cid, base=cid, what="apply-loop schedule around a snapshot (%s): %s" % (c[1], out[:200])))
             else:
                 stats["interleaved_trials"] = stats.get("interleaved_trials", 0) + int(m.group(1))
